@@ -364,7 +364,9 @@ def g_contain(rng, force_pickle_exc=None, chain=None):
     bads = []
     for _ in range(n_bad):
         r = rng.random()
-        if r < 0.35:
+        if r < 0.12:
+            bads.append({"k": "raise_unpicklable", "e": rng.choice(["LvError", "ValueError", "OSError"]), "args": [rng.randint(0, 99)], "attr": rng.choice(["lock", "lambda"])})
+        elif r < 0.35:
             bads.append(t_raise(rng))
         elif r < 0.6:
             bads.append(t_bad_arg_pickle(rng))
